@@ -11,7 +11,10 @@ def main (args : List String) : IO UInt32 := do
     let t ← match model with
       | "c18" => Driver.C18.run ops impl
       | "leakybucket" => Driver.LeakyBucket.run ops impl
-      | "factory" => Driver.Factory.run ops impl
+      | "factory" => Driver.Factory.run "" ops impl
+      | "factory-c13" => Driver.Factory.run "c13-" ops impl
+      | "factory-c14" => Driver.Factory.run "c14-" ops impl
+      | "factory-c15" => Driver.Factory.run "c15-" ops impl
       | _ => do IO.eprintln s!"unknown model {model}"; return 2
     return (if t.diffs == 0 && t.oracleFails == 0 then 0 else 1)
   | _ =>
